@@ -58,6 +58,7 @@ class Ctx:
         self.solve_time = 0.0
         self.notes = []
         self.input_syms = {}       # name -> value (for model extraction)
+        self.always_deps = []      # callee clauses consumed as bindings (result.f is X): every later obligation depends on them
 
     # ---- decisions -----------------------------------------------------------------------------
     def choose(self, n, what=""):
@@ -908,6 +909,11 @@ class Interp:
 
     def obj_getattr(self, ov, name, pure=False):
         ho = self.ctx.obj(ov)
+        if self.reg.aliases:
+            for cq in ([c.qual for c in self.repo.mro(ho.cls) if isinstance(c, ClassInfo)] if isinstance(ho.cls, ClassInfo) else [ho.cls]):
+                if (cq, name) in self.reg.aliases:
+                    name = self.reg.aliases[(cq, name)]
+                    break
         self.materialise(ov, name)
         if self.use_old and self.pre_snapshot is not None and ov.oid in self.pre_snapshot:
             fields, present, absent = self.pre_snapshot[ov.oid]
@@ -1123,6 +1129,9 @@ class Interp:
                     c = c2
         if finfo.name == "__init__":
             c = None      # constructors are always executed inline at call sites
+        top = self.ctx.verifier.cur_contract
+        if c is not None and top is not None and c.qual in getattr(top, "inline_callees", ()):
+            return self.exec_function(finfo, args, kwargs, closure=closure)
         if finfo.other_decorators:
             raise Unsupported("decorated function %s" % finfo.qual)
         if c is not None and not c.inline_flag:
